@@ -13,4 +13,5 @@ def specs_secondq(tier):
     s += [(SQ, "unit_solve_sylvester_2nd_quant", {"rows": r, "cols": c, "same_block": sb, "timeout_ms": t}) for r, c, sb in ((1, 1, True), (2, 2, True), (3, 3, True), (2, 3, False), (1, 2, False))]
     s += [(SQ, "unit_filter_terms", {"nmodes": a, "nconds": b, "timeout_ms": t}) for a, b in (((1, 1), (2, 2), (3, 1)) if tier == "thorough" else ((1, 1), (2, 2)))]
     s += [(SQ, "unit_apply_mask", {"timeout_ms": t})]
+    s += [(SQ, "unit_operator_diag_offdiag", {"variant": v, "timeout_ms": t}) for v in ("dict", "list")]
     return s
